@@ -1,3 +1,5 @@
 import OcppModel.Containers
 import OcppModel.Expected
+import OcppModel.DateTime
+import OcppModel.DriverDateTime
 import OcppModel.DriverContainers
